@@ -298,6 +298,98 @@ inline int find_name(Cfg const &c, const char *const *table, int n, std::string 
     return -1;
 }
 
+// ---------------------------------------------------------------------------------------------------------------
+// numeric character references: value of a digit string WITHOUT fixed-width arithmetic (significant digits are counted and
+// compared as a string; a number is only computed once it is known to have at most 7 significant digits), plus the wrapped
+// readings a careless implementation would produce (mod 2^32 / mod 2^64), used for classification only.
+// ---------------------------------------------------------------------------------------------------------------
+struct NumRef {
+    bool hex = false; size_t digits = 0, zeros = 0, significant = 0;
+    bool above_max = false;        // value > 0x10FFFF
+    bool ge_2_31 = false, ge_2_32 = false, ge_2_63 = false, ge_2_64 = false;
+    unsigned long cp = 0x110000;   // exact value when !above_max
+    uint32_t wrap32 = 0; uint64_t wrap64 = 0;
+};
+inline int cmp_digits(std::string const &a, std::string const &b) {   // both without leading zeros
+    if (a.size() != b.size()) return a.size() < b.size() ? -1 : 1;
+    return a.compare(b) < 0 ? -1 : a.compare(b) > 0 ? 1 : 0;
+}
+inline NumRef classify_digits(std::string const &d, bool hexa) {
+    NumRef r; r.hex = hexa; r.digits = d.size();
+    size_t z = 0; while (z < d.size() && d[z] == '0') z++;
+    r.zeros = z;
+    std::string sig = lower(d.substr(z));
+    r.significant = sig.size();
+    for (char ch : d) { unsigned dv = is_digit(ch) ? ch - '0' : (ch | 32) - 'a' + 10; r.wrap32 = r.wrap32 * (hexa ? 16u : 10u) + dv; r.wrap64 = r.wrap64 * (hexa ? 16u : 10u) + dv; }
+    if (hexa) {
+        r.above_max = cmp_digits(sig, "10ffff") > 0;
+        r.ge_2_31 = cmp_digits(sig, "80000000") >= 0; r.ge_2_32 = cmp_digits(sig, "100000000") >= 0;
+        r.ge_2_63 = cmp_digits(sig, "8000000000000000") >= 0; r.ge_2_64 = cmp_digits(sig, "10000000000000000") >= 0;
+    } else {
+        r.above_max = cmp_digits(sig, "1114111") > 0;
+        r.ge_2_31 = cmp_digits(sig, "2147483648") >= 0; r.ge_2_32 = cmp_digits(sig, "4294967296") >= 0;
+        r.ge_2_63 = cmp_digits(sig, "9223372036854775808") >= 0; r.ge_2_64 = cmp_digits(sig, "18446744073709551616") >= 0;
+    }
+    if (!r.above_max) { unsigned long v = 0; for (char ch : sig) v = v * (hexa ? 16 : 10) + (is_digit(ch) ? ch - '0' : ch - 'a' + 10); r.cp = v; }
+    return r;
+}
+// is this code point one a numeric reference may denote? (the repository's own tests establish the illegal classes)
+inline bool legal_ref_codepoint(unsigned long cp) {
+    return !(cp > 0x10FFFF || cp == 0xFFFE || cp == 0xFFFF || bad_control((unsigned)cp) || (cp >= 0xD800 && cp <= 0xDFFF));
+}
+
+// ---- construction of numeric references for the generators (rapidcheck grammar, fuzz expansion, deterministic grid)
+typedef unsigned __int128 u128;
+inline std::string u128_digits(u128 v, bool hexa) {
+    if (v == 0) return "0";
+    std::string r; unsigned base = hexa ? 16 : 10;
+    while (v) { r += "0123456789abcdef"[(unsigned)(v % base)]; v /= base; }
+    return std::string(r.rbegin(), r.rend());
+}
+static const unsigned long NUM_CPS[] = {0x41, 0x3C, 0x26, 0x20AC, 0x10FFFF, 0x9, 0x20, 0xE9, 0x1F600, 0x27,      // legal
+                                        0x0, 0x8, 0x1F, 0x7F, 0x9F, 0xD800, 0xDFFF, 0xFFFE, 0xFFFF, 0xB};        // illegal
+static const int N_NUM_CPS = sizeof(NUM_CPS) / sizeof(NUM_CPS[0]);
+enum NumForm { NF_DEC = 0, NF_HEX_LOWER, NF_HEX_UPPER, NF_HEX_x_UPPER, NF_HEX_X_lower, NF_HEX_MIXED, NF_N };
+enum NumVal { NV_CP = 0, NV_2_32_CP, NV_2_33_CP, NV_K_2_32_CP, NV_2_64_CP, NV_K_2_64_CP, NV_2_31_CP, NV_2_63_CP,
+              NV_2_31_M1, NV_2_31, NV_2_32_M1, NV_2_32, NV_110000, NV_10FFFF, NV_LONG_EDGES, NV_LONG_CONGRUENT, NV_LONG_RANDOM, NV_N };
+static const unsigned NUM_ZEROS[] = {0, 0, 0, 0, 1, 2, 3, 8, 16, 30, 40};
+// zeros: number of leading zeros; aux: free parameter (multiplier k, digit source)
+inline std::string make_numeric_ref(unsigned form, unsigned zeros, unsigned vclass, unsigned long cp, unsigned long aux) {
+    form %= NF_N; vclass %= NV_N;
+    bool hexa = form != NF_DEC;
+    u128 one = 1, v = 0; std::string digits;
+    uint64_t lcg = aux * 6364136223846793005ULL + 1442695040888963407ULL;
+    auto rnd = [&lcg]() { lcg = lcg * 6364136223846793005ULL + 1442695040888963407ULL; return (unsigned)(lcg >> 33); };
+    switch (vclass) {
+    case NV_CP: v = cp; break;
+    case NV_2_32_CP: v = (one << 32) + cp; break;
+    case NV_2_33_CP: v = (one << 33) + cp; break;
+    case NV_K_2_32_CP: v = ((u128)(1 + aux % 65536) << 32) + cp; break;
+    case NV_2_64_CP: v = (one << 64) + cp; break;
+    case NV_K_2_64_CP: v = ((u128)(1 + aux % 65536) << 64) + cp; break;
+    case NV_2_31_CP: v = (one << 31) + cp; break;
+    case NV_2_63_CP: v = (one << 63) + cp; break;
+    case NV_2_31_M1: v = (one << 31) - 1; break;
+    case NV_2_31: v = one << 31; break;
+    case NV_2_32_M1: v = (one << 32) - 1; break;
+    case NV_2_32: v = one << 32; break;
+    case NV_110000: v = 0x110000; break;
+    case NV_10FFFF: v = 0x10FFFF; break;
+    case NV_LONG_EDGES: { static const int D[] = {-2, -1, 0, 1}; v = (aux & 4 ? (one << 64) : (one << 63)) + D[aux & 3]; break; }
+    case NV_LONG_CONGRUENT:      // 20..40 digits, congruent to cp modulo 2^64 (hence modulo 2^32)
+        if (hexa) { unsigned n = 4 + rnd() % 21; digits = "1"; for (unsigned i = 1; i < n; i++) digits += "0123456789abcdef"[rnd() % 16]; char b[20]; snprintf(b, sizeof b, "%016lx", cp); digits += b; }
+        else v = ((u128)(((uint64_t)rnd() << 31 | rnd()) | 1) << 64) + cp;
+        break;
+    case NV_LONG_RANDOM: { unsigned n = 20 + rnd() % 21; digits = "123456789"[rnd() % 9]; for (unsigned i = 1; i < n; i++) digits += (hexa ? "0123456789abcdef" : "0123456789")[rnd() % (hexa ? 16 : 10)]; break; }
+    }
+    if (digits.empty()) digits = u128_digits(v, hexa);
+    if (form == NF_HEX_UPPER || form == NF_HEX_x_UPPER) for (auto &ch : digits) ch = toupper(ch);
+    if (form == NF_HEX_MIXED) for (size_t i = 0; i < digits.size(); i += 2) digits[i] = toupper(digits[i]);
+    std::string r = "&#";
+    if (hexa) r += (form == NF_HEX_UPPER || form == NF_HEX_X_lower) ? 'X' : 'x';
+    return r + std::string(zeros, '0') + digits + ";";
+}
+
 // decode the fixed entity set allowed inside attribute values; false if another '&' construct is present
 inline bool decode_value(std::string const &v, std::string &out, std::string &why) {
     static const struct { const char *e; char c; } E[] = {{"&amp;", '&'}, {"&lt;", '<'}, {"&gt;", '>'}, {"&quot;", '"'}, {"&apos;", '\''}, {"&#39;", '\''}, {"&#x27;", '\''}, {"&#X27;", '\''}};
@@ -312,6 +404,7 @@ inline bool decode_value(std::string const &v, std::string &out, std::string &wh
     return true;
 }
 
+static const char *const SIG_NUMREF_ABOVE_MAX = "entity:numeric-reference-above-0x10FFFF-accepted";
 static const char *const SIG_LOW_SURROGATE_REF = "entity:numeric-reference-to-low-surrogate-accepted";
 static const char *const SIG_ABS_ACCEPTS_RELATIVE = "uri:absolute-only-validator-accepts-relative-reference-named-like-scheme";
 // Exclusion of known, unresolved findings is switched on by the exploration units only (props/c04.py sets C04_EXCLUDE_KNOWN=1);
@@ -403,16 +496,17 @@ inline ScanResult scan(Cfg const &c, std::string const &s) {
                 j++;
                 bool hexa = j < n && (s[j] == 'x' || s[j] == 'X');
                 if (hexa) j++;
-                size_t d0 = j; unsigned long cp = 0;
-                while (j < n && (hexa ? is_hex(s[j]) : is_digit(s[j]))) {
-                    unsigned dv = is_digit(s[j]) ? s[j] - '0' : (s[j] | 32) - 'a' + 10;
-                    cp = cp * (hexa ? 16 : 10) + dv; if (cp > 0x110000) cp = 0x110000;
-                    j++;
-                }
+                size_t d0 = j;
+                while (j < n && (hexa ? is_hex(s[j]) : is_digit(s[j]))) j++;
                 if (j == d0 || j >= n || s[j] != ';') return fail("scan:bad-entity", "'&#' that is not a complete numeric character reference", i);
                 if (!c.numeric) return fail("scan:numeric-entity-not-allowed", "numeric character reference although they are not allowed", i);
+                // value by digit-string comparison: no fixed-width arithmetic, nothing can wrap
+                NumRef nr = classify_digits(s.substr(d0, j - d0), hexa);
+                if (nr.above_max) return fail(SIG_NUMREF_ABOVE_MAX, std::string("numeric character reference with a value above 0x10FFFF survives (") + std::to_string(nr.significant) + " significant digits" +
+                                              (nr.ge_2_64 ? ", >= 2^64" : nr.ge_2_32 ? ", >= 2^32" : "") + "; modulo 2^32 it reads " + std::to_string(nr.wrap32) + ")", i);
+                unsigned long cp = nr.cp;
                 // the repository's own tests establish these as invalid references
-                if (cp > 0x10FFFF || cp == 0xFFFE || cp == 0xFFFF || bad_control((unsigned)cp) || (cp >= 0xD800 && cp <= 0xDBFF))
+                if (cp == 0xFFFE || cp == 0xFFFF || bad_control((unsigned)cp) || (cp >= 0xD800 && cp <= 0xDBFF))
                     return fail("scan:numeric-entity-bad-codepoint", "numeric character reference to an invalid code point", i);
                 // Known finding (proposed_fixes/C04-numeric-entity-low-surrogate.diff): the surrogate test stops at U+DBFF, so references
                 // to low surrogates pass.  Own signature; the exploration units skip such cases (C04_EXCLUDE_KNOWN).
@@ -564,14 +658,45 @@ inline bool escape_alignment(std::string const &x, std::string const &o, std::ve
 // ---------------------------------------------------------------------------------------------------------------
 // one case
 // ---------------------------------------------------------------------------------------------------------------
+// numeric references present in the INPUT (anywhere: text or attribute value), for the class histogram / non-triviality
+struct NumStats { int refs = 0, dec = 0, hex = 0, digits10 = 0, digits20 = 0, zeros = 0, zeros8 = 0, above = 0, mid = 0, ge31 = 0, ge32 = 0, ge63 = 0, ge64 = 0, wrap32_legal = 0, wrap64_legal = 0,
+                      in_attr = 0, in_text = 0, legal = 0, illegal_small = 0; };
+inline NumStats numeric_stats(std::string const &s) {
+    NumStats st; bool in_tag = false; size_t n = s.size();
+    for (size_t i = 0; i < n; i++) {
+        if (s[i] == '<') in_tag = true; else if (s[i] == '>') in_tag = false;
+        if (s[i] != '&' || i + 2 >= n || s[i + 1] != '#') continue;
+        size_t j = i + 2; bool hexa = s[j] == 'x' || s[j] == 'X'; if (hexa) j++;
+        size_t d0 = j; while (j < n && (hexa ? is_hex(s[j]) : is_digit(s[j]))) j++;
+        if (j == d0 || j >= n || s[j] != ';') continue;
+        NumRef r = classify_digits(s.substr(d0, j - d0), hexa);
+        st.refs++; (hexa ? st.hex : st.dec)++; (in_tag ? st.in_attr : st.in_text)++;
+        if (r.digits >= 10) st.digits10++; if (r.digits >= 20) st.digits20++;
+        if (r.zeros) st.zeros++; if (r.zeros >= 8) st.zeros8++;
+        if (r.above_max) { st.above++; if (!r.ge_2_32) st.mid++; } else if (legal_ref_codepoint(r.cp)) st.legal++; else st.illegal_small++;
+        if (r.ge_2_31) st.ge31++; if (r.ge_2_32) st.ge32++; if (r.ge_2_63) st.ge63++; if (r.ge_2_64) st.ge64++;
+        if (r.ge_2_32 && legal_ref_codepoint(r.wrap32)) st.wrap32_legal++;
+        if (r.ge_2_64 && r.wrap64 <= 0x10FFFF && legal_ref_codepoint((unsigned long)r.wrap64)) st.wrap64_legal++;
+        i = j;
+    }
+    return st;
+}
+
 struct Counters {
     enum { x_valid, x_invalid, cfg_xhtml, cfg_html, cfg_escape, cfg_remove, x_illformed, x_nul, out_empty, out_tag, out_close, out_attr, out_uri, out_entity, out_numeric,
-           out_comment, obs_low_surrogate, obs_scanner_laxer, nontrivial, out_unconvertible, rules_built, N };
+           out_comment, obs_low_surrogate, obs_scanner_laxer, nontrivial, out_unconvertible, rules_built,
+           nr_refs, nr_dec, nr_hex, nr_digits10, nr_digits20, nr_zeros, nr_zeros8, nr_above, nr_mid, nr_ge31, nr_ge32, nr_ge63, nr_ge64, nr_wrap32, nr_wrap64, nr_attr, nr_text, nr_legal, nr_illegal_small,
+           nr_big_on, nr_big_off, nr_big_accepted_none, N };
     long long n[N] = {0}, enc[NENC] = {0}; int pending = 0;
     void push() {
         static const char *const NAME[N] = {"x.valid", "x.invalid", "cfg.xhtml", "cfg.html", "cfg.escape", "cfg.remove", "x.illformed-encoding", "x.has-NUL", "out.empty", "out.has-tag",
             "out.has-close-tag", "out.has-attr", "out.has-uri-attr", "out.has-entity", "out.has-numeric-entity", "out.has-comment", "obs.numeric-ref-to-low-surrogate-accepted",
-            "obs.scanner-accepts-what-validate-rejects", "nontrivial", "out.unconvertible-to-declared-encoding", "cfg.distinct-rule-sets-built"};
+            "obs.scanner-accepts-what-validate-rejects", "nontrivial", "out.unconvertible-to-declared-encoding", "cfg.distinct-rule-sets-built",
+            "entity.numeric.cases-with-reference", "entity.numeric.decimal", "entity.numeric.hex", "entity.numeric.digits>=10", "entity.numeric.digits>=20", "entity.numeric.leading-zeros", "entity.numeric.leading-zeros>=8",
+            "entity.numeric.value>0x10FFFF", "entity.numeric.value>0x10FFFF,<2^32", "entity.numeric.value>=2^31", "entity.numeric.value>=2^32", "entity.numeric.value>=2^63", "entity.numeric.value>=2^64",
+            "entity.numeric.value>=2^32,mod-2^32-legal-codepoint", "entity.numeric.value>=2^64,mod-2^64-legal-codepoint", "entity.numeric.in-attribute-value-or-tag", "entity.numeric.in-text",
+            "entity.numeric.legal-codepoint", "entity.numeric.illegal-codepoint<=0x10FFFF", "entity.numeric.value>=2^32,numeric-entities-allowed", "entity.numeric.value>=2^32,numeric-entities-off",
+            "entity.numeric.value>=2^32,input-does-not-validate"};
         for (int i = 0; i < N; i++) if (n[i]) { VR.cls(NAME[i], n[i]); n[i] = 0; }
         for (int i = 0; i < NENC; i++) if (enc[i]) { VR.cls(std::string("enc.") + (ENCS[i].name[0] ? ENCS[i].name : "none"), enc[i]); enc[i] = 0; }
         pending = 0;
@@ -685,9 +810,21 @@ inline Verdict check_case(std::string const &cfg_bytes, std::string const &text,
     if (sr.numeric) K.n[Counters::out_numeric]++;
     if (sr.comments) K.n[Counters::out_comment]++;
     if (!v && x_wf && scan(c, xview).ok()) K.n[Counters::obs_scanner_laxer]++;   // filter stricter than the scanner: fine, just measured
-    if (!v && kept) K.n[Counters::nontrivial]++;
+    // numeric character references of the input (all counters are numbers of CASES that contain such a reference)
+    bool big_ref = false;
+    if (c.ascii_compatible() || x_wf) {
+        NumStats ns = numeric_stats(c.ascii_compatible() ? x : xview);
+        if (ns.refs) {
+            const int *src[] = {&ns.refs, &ns.dec, &ns.hex, &ns.digits10, &ns.digits20, &ns.zeros, &ns.zeros8, &ns.above, &ns.mid, &ns.ge31, &ns.ge32, &ns.ge63, &ns.ge64, &ns.wrap32_legal, &ns.wrap64_legal,
+                                &ns.in_attr, &ns.in_text, &ns.legal, &ns.illegal_small};
+            for (int k = 0; k < 19; k++) if (*src[k]) K.n[Counters::nr_refs + k]++;
+            if (ns.ge32) { big_ref = true; K.n[c.numeric ? Counters::nr_big_on : Counters::nr_big_off]++; if (!v) K.n[Counters::nr_big_accepted_none]++; }
+        }
+    }
+    bool nt = (!v && kept) || big_ref;
+    if (nt) K.n[Counters::nontrivial]++;
     if (++K.pending >= 4096) K.push();
-    if (!v && kept) {
+    if (nt) {
         VR.nontrivial(vr::fnv(x, vr::fnv(c.raw)));
         if (VR.want_sample()) VR.sample("[" + c.describe() + "] " + vr::show(x, 200) + "  ->  " + vr::show(o, 200));
     }
